@@ -12,7 +12,7 @@ MIRDIR = os.path.join(BUILD, 'mir')
 
 FEATURES = {
     'identity_credential': ['--no-default-features', '--features',
-                            'revocation-bitmap,status-list-2021,validator,credential,presentation,sd-jwt'],
+                            'revocation-bitmap,status-list-2021,validator,credential,presentation,sd-jwt,sd-jwt-vc'],
 }
 
 
